@@ -12,6 +12,7 @@ package ledger
 import (
 	"bytes"
 	"fmt"
+	"runtime/debug"
 	"strings"
 	"testing"
 
@@ -36,15 +37,6 @@ type c19World struct {
 	frozen   basics.Address // addrs[3]: opted in to the asset, holding frozen
 }
 
-func c19Addr(tag byte, i int) basics.Address {
-	var a basics.Address
-	for k := range a {
-		a[k] = tag
-	}
-	a[0] = byte(i)
-	return a
-}
-
 func c19NewWorld(t *testing.T, cv protocol.ConsensusVersion) (*c19World, error) {
 	ew, err := evkNewWorld(t, cv, false)
 	if err != nil {
@@ -52,12 +44,12 @@ func c19NewWorld(t *testing.T, cv protocol.ConsensusVersion) (*c19World, error) 
 	}
 	w := &c19World{evkWorld: ew}
 	a := w.addrs
-	w.poorMin, w.poorOver = c19Addr(0xA1, 1), c19Addr(0xA2, 2)
+	w.poorMin, w.poorOver = evkAddr(0xA1, 1), evkAddr(0xA2, 2)
 	w.rekeyed, w.rekeyTo, w.never, w.frozen = a[6], a[7], a[9], a[3]
 	mb := w.proto.MinBalance
 	w.poorBal = [2]uint64{mb + 5000, mb + 7000}
 	for i := 0; i < 4; i++ {
-		w.closers = append(w.closers, c19Addr(0xC0, i))
+		w.closers = append(w.closers, evkAddr(0xC0, i))
 	}
 	var g [][]*txntest.Txn
 	g = append(g,
@@ -110,14 +102,15 @@ type c19Gen struct {
 	rt       *rapid.T
 	w        *c19World
 	prev     []transactions.SignedTxn // members of earlier groups (for duplicates)
-	leaseSet bool
 }
 
+// rapid's SampledFrom favours the first entries, so the causes that are detected latest (after every member
+// was applied to the child state) come first.
 var c19Causes = []string{
-	"overspend", "asset-overspend", "minbalance", "asset-not-opted-in", "asset-frozen", "teal-reject", "teal-err",
-	"teal-budget", "inner-fail", "inner-fail-depth2", "fee-shortfall", "fee-zero", "group-id-zero", "group-id-wrong",
-	"authaddr-rekeyed", "authaddr-bogus", "dup-in-group", "dup-earlier-group", "lease", "malformed-range",
-	"malformed-fields", "dead-round", "box-ref-missing", "clearstate-not-opted-in", "no-such-app", "app-not-opted-in",
+	"fee-shortfall", "group-id-wrong", "teal-err", "inner-fail", "minbalance", "box-ref-missing", "group-id-zero",
+	"inner-fail-depth2", "teal-reject", "teal-budget", "fee-zero", "dup-in-group", "lease", "authaddr-rekeyed",
+	"overspend", "asset-overspend", "asset-not-opted-in", "asset-frozen", "authaddr-bogus", "dup-earlier-group",
+	"malformed-range", "malformed-fields", "dead-round", "clearstate-not-opted-in", "no-such-app", "app-not-opted-in",
 }
 
 func (g *c19Gen) rich() basics.Address {
@@ -134,7 +127,7 @@ func (g *c19Gen) anyRecv() basics.Address {
 	case k == 10:
 		return g.w.app2.Address()
 	default:
-		return c19Addr(0xF0, rapid.IntRange(0, 3).Draw(g.rt, "fresh"))
+		return evkAddr(0xF0, rapid.IntRange(0, 3).Draw(g.rt, "fresh"))
 	}
 }
 
@@ -154,9 +147,9 @@ func (g *c19Gen) val() string {
 // work: a member that does visible work and is expected (not required) to succeed.
 func (g *c19Gen) work() c19Member {
 	w, a := g.w, g.w.addrs
-	kind := rapid.SampledFrom([]string{"pay", "pay", "axfer", "gput", "gput", "gint", "lput", "box", "box", "bdel", "ipay",
-		"icreate-asset", "icreate-app", "acfg", "asset-optin", "app-optin", "rekeyed-ok", "close", "clear-fail", "nested-gput",
-		"nested-pay", "gdel", "lease-pay", "keyreg"}).Draw(g.rt, "work")
+	kind := rapid.SampledFrom([]string{"gput", "box", "ipay", "lput", "pay", "axfer", "icreate-asset", "icreate-app", "nested-gput",
+		"bdel", "gint", "acfg", "asset-optin", "app-optin", "rekeyed-ok", "close", "clear-fail",
+		"nested-pay", "gdel", "lease-pay", "keyreg", "pay", "box", "gput"}).Draw(g.rt, "work")
 	switch kind {
 	case "pay":
 		amt := rapid.Uint64Range(100_000, 2_000_000).Draw(g.rt, "amt")
@@ -316,7 +309,7 @@ func (g *c19Gen) build() c19Group {
 		n = rapid.IntRange(9, 16).Draw(rt, "n")
 	}
 	out := c19Group{failIdx: -1}
-	fail := rapid.IntRange(0, 99).Draw(rt, "fail") < 55
+	fail := rapid.Bool().Draw(rt, "fail")
 	if fail {
 		out.cause = rapid.SampledFrom(c19Causes).Draw(rt, "cause")
 		// bias the failing member away from index 0
@@ -458,8 +451,9 @@ func c19Run(rt *rapid.T, w *c19World, groups []c19Group, take []bool, mode strin
 
 func TestVerif_C19_GroupAtomicity(t *testing.T) {
 	vk := vkBegin(t, "C19")
-	vk.Rule("2..8 groups of 1..16 txns on one in-progress block of a prepared ledger (asset with frozen/non-opted holders, two multi-purpose apps with global/local/box state, rekeyed account, edge-balance accounts); ~55% of groups are built to fail at a drawn member for one of 26 causes while other members pay, move assets, write global/local/box state, run inner payments/creates (depth 1-2), close accounts, clear state. X gets all groups, Y (fresh evaluator, same header) only those X accepted; after every rejected group (prefix twins) and at the end blocks must be byte-identical and StateDeltas canonically identical. Non-trivial = some rejected group had >=1 member fully applied before the rejection. Distinct by member kinds + verdicts.")
+	vk.Rule("2..8 groups of 1..16 txns on one in-progress block of a prepared ledger (asset with frozen/non-opted holders, two multi-purpose apps with global/local/box state, rekeyed account, edge-balance accounts); ~50% of groups are built to fail at a drawn member for one of 26 causes while other members pay, move assets, write global/local/box state, run inner payments/creates (depth 1-2), close accounts, clear state. X gets all groups, Y (fresh evaluator, same header) only those X accepted; after every rejected group (prefix twins) and at the end blocks must be byte-identical and StateDeltas canonically identical. Non-trivial = some rejected group had >=1 member fully applied before the rejection. Distinct by member kinds + verdicts.")
 	vk.Assume("block header construction (bookkeeping.MakeBlock + fixed timestamp) is the same for X and Y; evaluation of accepted groups is deterministic")
+	defer debug.SetGCPercent(debug.SetGCPercent(400))
 	worlds := map[string]*c19World{}
 	for _, cv := range []protocol.ConsensusVersion{protocol.ConsensusFuture, protocol.ConsensusV41} {
 		w, err := c19NewWorld(t, cv)
@@ -492,10 +486,10 @@ func TestVerif_C19_GroupAtomicity(t *testing.T) {
 				cps = append(cps, i)
 			}
 		}
-		if len(cps) > 3 && !vkThorough() {
-			// keep a drawn subset of three
-			start := rapid.IntRange(0, len(cps)-3).Draw(rt, "cpStart")
-			cps = cps[start : start+3]
+		if len(cps) > 2 && !vkThorough() {
+			// quick tier: a drawn window of two intermediate checkpoints (thorough: all of them)
+			start := rapid.IntRange(0, len(cps)-2).Draw(rt, "cpStart")
+			cps = cps[start : start+2]
 		}
 		cps = append(cps, ng-1)
 		var full []c19Verdict
